@@ -229,6 +229,11 @@ func directed(r *vk.Run, st *Stats) {
 	// tree, the next Append cuts its payload/digest logs (chunk files removed), second crash before the
 	// tree syncs again
 	cfgD := Cfg{FileSize: 256, WriteBuf: 64, MaxActive: 3, IOConc: 1, AhtThld: 2, AhtBuf: 64}
+	// E: index recovery. Transactions with nothing indexable (the indexer only moves the index timestamp)
+	// between indexable ones, flush threshold 2 with a sync threshold far away + explicit flushes synced
+	// and not; images that drop the un-fsynced index logs but keep a renamed TIMESTAMP file (and the converse)
+	cfgE := Cfg{FileSize: 4096, WriteBuf: 256, MaxActive: 3, IOConc: 1, AhtThld: 3, AhtBuf: 512, HdrVer: 1,
+		IdxFlush: 2, IdxSync: 1000, NoIdx: 45, FlushMore: true, Long: true}
 	type sc struct {
 		name string
 		cfg  Cfg
@@ -239,6 +244,7 @@ func directed(r *vk.Run, st *Stats) {
 		{"B", cfgB, Budget{Points: 40, Workers: 8, Stage2: 40, Points2: 12, OnlyPol: []string{"only:aht"}, OnlyPol2: []string{"except:aht", "dur"}}},
 		{"C", cfgC, Budget{Points: 60, Workers: 8, OnlyPol: []string{"os", "only:commit"}}},
 		{"D", cfgD, Budget{Points: 40, Workers: 8, Stage2: 40, Points2: 14, OnlyPol: []string{"only:aht", "dur"}, OnlyPol2: []string{"dur", "except:aht", "only:aht", "notrunc", "os"}}},
+		{"E", cfgE, Budget{Points: 120, Workers: 8, OnlyPol: []string{"only:meta", "except:index", "dur", "os", "except:meta"}}},
 	} {
 		seed := int64(7000 + i)
 		rng := rand.New(rand.NewSource(seed))
